@@ -80,4 +80,21 @@ Definition real_logs (cfg : wcfg) (ss : list session) : list record :=
   hist_logs crc32 enc_record dec_record_slice cfg db_fresh ss.
 (** a record the bincode codec carries: well formed (u64 ids, UTF-8 strings, values that are
     the bincode form of a [Value]) and shorter than 4 GiB once encoded *)
-Definition rec_fits (r : record) : Prop := rec_wf r /\ lenZ (enc_record r) < two32.
+Definition rec_fits (r : record) : Prop := rec_wf r /\ lenZ (enc_record r) < two32 /\ rec_ids_below r.
+
+(** * The code before the repairs (for the [_pre_refuted] theorems) *)
+Definition real_sessions_pre (cfg : wcfg) (ss : list session) : list sobs * rres dbstate :=
+  run_sessions_pre crc32 enc_record dec_record_slice cfg db_fresh ss.
+Definition last_cycle_differs_pre (cfg : wcfg) (ss : list session) : Prop :=
+  exists o s2, last_obs (fst (real_sessions_pre cfg ss)) = Some o /\ so_after o = ROk s2 /\ differ s2 (so_before o).
+Definition last_cycle_differs_pre_b (cfg : wcfg) (ss : list session) : bool :=
+  match last_obs (fst (real_sessions_pre cfg ss)) with
+  | Some o => match so_after o with ROk s2 => differ_b s2 (so_before o) | RErr => false end
+  | None => false
+  end.
+(** the last cycle of the history is exact under the current code *)
+Definition last_cycle_exact_b (cfg : wcfg) (ss : list session) : bool :=
+  match last_obs (fst (real_sessions cfg ss)) with
+  | Some o => match so_after o with ROk s2 => negb (differ_b s2 (so_before o)) | RErr => false end
+  | None => false
+  end.
